@@ -25,7 +25,7 @@ RULE = ("per configuration (caller environment inherited / empty / with odd entr
 ERRS = {
     "openat": ["ENOENT", "EACCES", "EMFILE", "ENFILE", "EIO", "EINTR", "ENOSPC", "EROFS"], "open": ["ENOENT", "EACCES", "EMFILE", "EIO"],
     "read": ["EIO", "EINTR", "EAGAIN", "EBADF"], "pread64": ["EIO", "EINTR"], "write": ["EIO", "ENOSPC", "EDQUOT", "EPIPE", "EAGAIN", "EINTR", "EBADF"],
-    "writev": ["EIO", "ENOSPC", "EPIPE", "EAGAIN"], "close": ["EIO", "EINTR", "EBADF"],
+    "writev": ["EIO", "ENOSPC", "EPIPE", "EAGAIN"], "close": ["EIO", "EINTR"],      # (not EBADF: the kernel says that only for a descriptor that is not open; third-party NSS modules abort on it by design)
     "stat": ["ENOENT", "EACCES", "EIO"], "fstat": ["EIO", "EBADF"], "newfstatat": ["ENOENT", "EACCES", "EIO"], "statx": ["ENOENT", "EACCES", "EIO"],
     "lstat": ["ENOENT", "EACCES"], "lseek": ["ESPIPE", "EINVAL"], "socket": ["EMFILE", "ENFILE", "EAFNOSUPPORT", "ENOBUFS", "EACCES"],
     "connect": ["ECONNREFUSED", "ENOENT", "EACCES", "EAGAIN", "EINTR", "EPROTOTYPE"],
